@@ -2,9 +2,9 @@
 from common import s2t, t2s
 
 OPS = {
-    "cw_range": {}, "cell_len": {}, "cell_len_hist": {}, "set_cell_size": {}, "chop_cells": {},
+    "cw_range": {"noshrink": True}, "cell_len": {}, "cell_len_hist": {}, "set_cell_size": {}, "chop_cells": {},
     "split_lines": {}, "adjust_line_length": {}, "split_and_crop_lines": {}, "get_shape": {},
-    "set_shape": {}, "cell_len_default_cache": {},
+    "set_shape": {}, "cell_len_default_cache": {"noshrink": True},
 }
 
 # alphabet: ASCII, wide (CJK, emoji), zero-width (combining, ZWSP, controls), misc
